@@ -198,7 +198,7 @@ Definition handle_reserve (c : cfg) (s : st) (p k : Z) (acl : bool) (inj : Z) : 
       (* the ACL is consulted here; the harness's stub may close the peer's
          connections first (inj = 2): the request then races with disconnected() *)
       let hooked := inj =? 2 in
-      let s1 := if hooked then close_peer c (set_now s (s_now s + 1)) p else s in
+      let s1 := if hooked then close_peer c (advance_to c s (s_now s + 1)) p else s in
       let seen := fun x : Z => if hooked then 0 else x in
       if negb acl then (s1, robs (seen ST_DENIED) 0 ST_DENIED)
       else
@@ -242,7 +242,7 @@ Definition handle_connect (c : cfg) (s : st) (src sa dst : Z) (acl : bool) (dmod
         (* the stop handshake succeeded; the harness may now close the source's
            connections (smode 3): the response write fails *)
         if smode =? 3 then
-          let s3 := close_peer c (set_now s1 (s_now s1 + 1)) src in
+          let s3 := close_peer c (advance_to c s1 (s_now s1 + 1)) src in
           (cleanup_circ c s3 src dst, [0; ST_CONNFAIL; 0])
         else
           let id := next_cid s1 in
@@ -255,8 +255,13 @@ Definition handle_connect (c : cfg) (s : st) (src sa dst : Z) (acl : bool) (dmod
 Definition find_circ (s : st) (id : Z) : option circ :=
   find (fun x => ci_id x =? id) (s_circs s).
 
-Definition put_circ (s : st) (ci : circ) : st :=
-  set_circs s (map (fun x => if ci_id x =? ci_id ci then ci else x) (s_circs s)).
+Fixpoint replace_first (ci : circ) (l : list circ) : list circ :=
+  match l with
+  | [] => []
+  | x :: r => if ci_id x =? ci_id ci then ci :: r else x :: replace_first ci r
+  end.
+
+Definition put_circ (s : st) (ci : circ) : st := set_circs s (replace_first ci (s_circs s)).
 
 (* after a direction ended: when it was the last one, done() runs cleanup() *)
 Definition settle_circ (c : cfg) (s : st) (ci : circ) : st :=
@@ -325,12 +330,15 @@ Inductive op :=
 | OAdvance (dt : Z)
 | OCloseRelay.
 
+(* a peer has two connections: index 0 and (anything else =) 1 *)
+Definition nk (k : Z) : Z := if k =? 0 then 0 else 1.
+
 Definition apply_op (c : cfg) (s : st) (o : op) : st * list Z :=
   match o with
-  | OOpen p k => (set_link s (fun x y => if (x =? p) && (y =? k) then true else s_link s x y), [])
-  | OCloseConn p k => (close_conn c s p k, [])
-  | OReserve p k acl inj => handle_reserve c s p k acl inj
-  | OConnect src sa dst acl dm sm dc => handle_connect c s src sa dst acl dm sm dc
+  | OOpen p k => (set_link s (fun x y => if (x =? p) && (y =? nk k) then true else s_link s x y), [])
+  | OCloseConn p k => (close_conn c s p (nk k), [])
+  | OReserve p k acl inj => handle_reserve c s p (nk k) acl inj
+  | OConnect src sa dst acl dm sm dc => handle_connect c s src (nk sa) dst acl dm sm (nk (dc - 1) + 1)
   | OSend id dir n => (send c s id dir n, [])
   | OCloseWrite id dir => (close_write c s id dir, [])
   | OReset id side => (reset_end c s id side, [])
@@ -342,3 +350,10 @@ Definition apply_op (c : cfg) (s : st) (o : op) : st * list Z :=
 Definition step (c : cfg) (s : st) (t : Z) (o : op) (tend : Z) : st * list Z :=
   let '(s1, obs) := apply_op c (advance_to c s t) o in
   (advance_to c s1 tend, obs).
+
+(* the state after a history; times are inputs *)
+Fixpoint run (c : cfg) (s : st) (ops : list (Z * op * Z)) : st :=
+  match ops with
+  | [] => s
+  | (t, o, tend) :: r => run c (fst (step c s t o tend)) r
+  end.
